@@ -61,6 +61,8 @@ def run(prog: Program, rep: Report, tier: str) -> None:
     rep.rule("R7.5", "every valid broadcast is delivered: for each device type with a not-ON normalisation, the not-ON paths of the builder reach the callback without examining the bytes of the fields that are reported as zero in that state (junk there is still a valid broadcast)", 6)
     rep.rule("R7.6", "no deferred delivery loop that one error can end: if a coroutine of the bridge module is scheduled as a task (create_task / ensure_future) and calls the device builder or the user's callback "
                      "inside a loop, the call is enclosed - inside that loop - by a try whose handler catches Exception; otherwise one corrupted datagram or raising callback ends the task and every later delivery, on all ports, is lost", 0, structural=True)
+    rep.rule("R7.7", "a restarted bridge listens again: start() on an instance that has been started and stopped before (stop keeps the closed transports registered) creates an endpoint for every port, "
+                     "so broadcasts are delivered after a restart as well (shares its analysis with C17 R17.7)", 1)
     rep.rule("R7.4", "one protocol object and one transport per port, each bound to partial(_parse_device_from_datagram, <the user's callback>)", 1)
     rep.explanation = (
         "Decides four structural necessary conditions (one synchronous hand-off per datagram; no state carried between datagrams; nothing on the receive path closes a transport; "
@@ -191,6 +193,14 @@ def run(prog: Program, rep: Report, tier: str) -> None:
         if len(set(protos)) != len(protos):
             bad4 = "one protocol object is shared by several ports"
     rep.check(bad4 is None and n_it > 0, "R7.4", "protocol per port bound to the user callback", swhere, bad4 or "no endpoint creation explored", key="R7.4|protocol")
+    # ---- R7.7 (shares its analysis with C17 R17.7)
+    from .c17 import iter_count as _ic, _flat as _fl
+    try:
+        bad7, n7, funcs7 = B.restart_check(prog, _ic, _fl)
+        funcs |= funcs7
+        rep.check(bad7 is None and n7 >= 3, "R7.7", "a restarted bridge binds every port", swhere, (bad7 or f"only {n7} returning paths explored") + ": valid broadcasts on the skipped ports are never delivered", key="R7.7|restart")
+    except AnalysisError as e7:
+        rep.undecided("R7.7", "a restarted bridge binds every port", swhere, f"start() on an instance with history is not analysable: {e7}")
     # ---- R7.5 (shares its analysis with C05 R5.7)
     from . import c05
     from ..model import EnumRef
